@@ -91,7 +91,7 @@ def run_case(reg, target, case):
 
 
 def run_target(reg, target, rng, tier, budget=None, want=None):
-    out = {"function": target, "cases": 0, "skipped": 0, "failures": [], "bound": "", "distinct": 0}
+    out = {"function": target, "cases": 0, "skipped": 0, "failures": [], "bound": "", "distinct": 0, "sample_cases": []}
     seen = set()
     for gen, bound in SCENARIOS.get(target, []):
         out["bound"] = (out["bound"] + "; " + bound).strip("; ")
@@ -117,6 +117,8 @@ def run_target(reg, target, rng, tier, budget=None, want=None):
             out["cases"] += 1
             if label not in seen:
                 seen.add(label)
+                if len(out["sample_cases"]) < 3:
+                    out["sample_cases"].append({"function": target, "input": short(label, 240)})
             for f in fails:
                 per_clause = sum(1 for g in out["failures"] if g["clause"] == f["clause"])
                 if per_clause < 2 and len(out["failures"]) < 12:
@@ -138,7 +140,7 @@ def main(argv):
     if "--tier" in argv:
         tier = argv[argv.index("--tier") + 1]
     rng = random.Random(seed)
-    res = {"status": "ok", "failures": [], "bounded": [], "evaluations": 0, "distinct": 0, "rule": ""}
+    res = {"status": "ok", "failures": [], "bounded": [], "evaluations": 0, "distinct": 0, "rule": "", "sample_cases": []}
     if cmd == "check":
         prop = argv[1]
         targets = [t for t, c in reg.contracts.items() if prop in c.get("props", []) and t in SCENARIOS]
@@ -147,6 +149,7 @@ def main(argv):
             res["evaluations"] += r["cases"]
             res["distinct"] += r["distinct"]
             res["failures"] += r["failures"]
+            res["sample_cases"] += r["sample_cases"]
             res["bounded"].append({"function": t, "cases": r["cases"], "skipped": r["skipped"], "bound": r["bound"],
                                    "skip_reasons": r.get("skip_reasons", {})})
         res["rule"] = "bounded run-time evaluation of the contract clauses on the real functions over generated inputs; " \
